@@ -15,7 +15,7 @@ import random
 
 import numpy as np
 
-from .. import core, motlutil
+from .. import core, motlsys, motlutil
 
 FIELDS = motlutil.FIELDS
 KEYCOL = {"sid": "subtomo_id", "tomo": "tomo_id", "obj": "object_id", "cls": "class", "score": "score"}
@@ -290,6 +290,9 @@ def run_history(ctx, judge, a0, b0, steps, variant, kind, sample_all=False):
 
 
 def replay(ctx, case):
+    if case["kind"] == "mixed":
+        motlsys.run_mixed(ctx, "set", [case])
+        return
     judge = Judge(ctx)
     run_history(ctx, judge, case["a0"], case["b0"], case["steps"], case.get("variant", 0), case["kind"], sample_all=True)
     if judge.recs:
@@ -415,3 +418,7 @@ def run(ctx):
             big = [rng.choice([100, 150, 200, rng.randint(41, 200)]) for _ in range(12)]
             simulate(ctx, judge, "sim_large", big, 60, 200, 20, False, False, 60, third=True)
     judge.flush()
+    if want("mixed"):
+        # composition: set operations interleaved with pose operations and EM round trips on one live list
+        # (MotlSysTrace.tla, Scope = "set": only the set steps are judged, pose steps re-synchronise)
+        motlsys.run(ctx, "set", ctx.pick(150, 3000))
